@@ -55,7 +55,7 @@ ASSUMPTIONS = [
     "in the population units the latent draw is an arbitrary array; the radial truncation is decided separately by the latent_radius / latent_prep units",
     "augmented proposal: scipy's norm.logpdf of the augment parameter is -x^2/2 - log(sqrt(2 pi))",
 ]
-OUTSIDE = ["latent dimensions other than 2 for the radial samplers", "that the pool is distributed as the prior restricted to the contour (distributional)", "termination of the population loop (paths needing more iterations than the bound are counted as out-of-bound)",
+OUTSIDE = ["latent dimensions above 3 for the radial samplers (d = 1..3 are decided; x ** (1/d) is only modelled for d <= 3)", "that the pool is distributed as the prior restricted to the contour (distributional)", "termination of the population loop (paths needing more iterations than the bound are counted as out-of-bound)",
            "marginalise_augment=True of the augmented proposal (Monte-Carlo marginalisation through the flow); the gravitational-wave and clustering proposals only change configuration / training and inherit the population code checked here", "the distribution of the radial latent samplers (only the radius bound is decided, relative to: chi ppf/cdf inverse and monotone, gammaincinv(d/2, chi.cdf(y)) = y^2/2)"]
 
 PARALLEL_UNITS = True
@@ -570,8 +570,9 @@ def units(tier):
                        twin_runs=20, witness_every=10, setup=setup, nproc=1, time_budget_s=900))
     nl = dict(exp_axioms="signs", fresh=True, timeout_ms=60000)
     for kind in ("nsphere", "truncated_gaussian", "class"):
-        us.append(Unit(f"latent_radius[{kind},d=2]", make_latent_radius(kind, 2), MODS + ["nessai.utils.sampling"], nl, expect_cover=["end"],
-                       mutants=["tight"] if kind == "nsphere" else [], twin_runs=30, witness_every=1, nproc=1, time_budget_s=600))
+        for d in ((2, 3) if q else (1, 2, 3)):
+            us.append(Unit(f"latent_radius[{kind},d={d}]", make_latent_radius(kind, d), MODS + ["nessai.utils.sampling"], nl, expect_cover=["end"],
+                           mutants=["tight"] if (kind, d) == ("nsphere", 2) else [], twin_runs=30, witness_every=1, nproc=1, time_budget_s=600))
     us.append(Unit("in_bounds[2 params, either dict order]", make_in_bounds(), MODS, opts, expect_cover=["end"], twin_runs=30, witness_every=4, setup=setup, nproc=1))
     for lp in ("truncated_gaussian", "uniform_nsphere"):
         us.append(Unit(f"latent_prep[{lp},two populations]", make_latent_prep(lp), MODS + ["nessai.utils.sampling"], nl, expect_cover=["end"],
